@@ -1,0 +1,352 @@
+//! Verification hooks for `inflate::core` (feature `verif-hooks`, off by default).
+//!
+//! Only adds read/construct access to private items and cut-point bodies for the
+//! model checker; no behaviour of the crate changes.
+#![allow(missing_docs, private_interfaces, unexpected_cfgs, clippy::too_many_arguments)]
+
+use super::*;
+
+/// Scalar registers of a [`DecompressorOxide`] (everything except the big arrays).
+#[derive(Copy, Clone, PartialEq, Eq, Debug)]
+pub struct Regs {
+    pub state: u8,
+    pub num_bits: u32,
+    pub z_header0: u32,
+    pub z_header1: u32,
+    pub z_adler32: u32,
+    pub finish: u8,
+    pub block_type: u8,
+    pub check_adler32: u32,
+    pub dist: u32,
+    pub counter: u32,
+    pub num_extra: u8,
+    pub table_sizes: [u16; 3],
+    pub bit_buf: u64,
+    pub raw_header: [u8; 4],
+}
+
+pub const NUM_STATES: u8 = 35;
+pub const FIRST_FAILURE_STATE: u8 = 25;
+pub const STATE_DONE_FOREVER: u8 = 24;
+pub const STATE_READ_BLOCK_HEADER: u8 = 3;
+
+pub fn state_from_id(id: u8) -> Option<State> {
+    Some(match id {
+        0 => Start,
+        1 => ReadZlibCmf,
+        2 => ReadZlibFlg,
+        3 => ReadBlockHeader,
+        4 => BlockTypeNoCompression,
+        5 => RawHeader,
+        6 => RawMemcpy1,
+        7 => RawMemcpy2,
+        8 => ReadTableSizes,
+        9 => ReadHufflenTableCodeSize,
+        10 => ReadLitlenDistTablesCodeSize,
+        11 => ReadExtraBitsCodeSize,
+        12 => DecodeLitlen,
+        13 => WriteSymbol,
+        14 => ReadExtraBitsLitlen,
+        15 => DecodeDistance,
+        16 => ReadExtraBitsDistance,
+        17 => RawReadFirstByte,
+        18 => RawStoreFirstByte,
+        19 => WriteLenBytesToEnd,
+        20 => BlockDone,
+        21 => HuffDecodeOuterLoop1,
+        22 => HuffDecodeOuterLoop2,
+        23 => ReadAdler32,
+        24 => DoneForever,
+        25 => BlockTypeUnexpected,
+        26 => BadCodeSizeSum,
+        27 => BadDistOrLiteralTableLength,
+        28 => BadTotalSymbols,
+        29 => BadZlibHeader,
+        30 => DistanceOutOfBounds,
+        31 => BadRawLength,
+        32 => BadCodeSizeDistPrevLookup,
+        33 => InvalidLitlen,
+        34 => InvalidDist,
+        _ => return None,
+    })
+}
+
+impl DecompressorOxide {
+    /// Numeric id of the automaton state (declaration order of `State`).
+    pub fn verif_state_id(&self) -> u8 {
+        self.state as u8
+    }
+
+    pub fn verif_state_is_failure(&self) -> bool {
+        self.state.is_failure()
+    }
+
+    pub fn verif_regs(&self) -> Regs {
+        Regs {
+            state: self.state as u8,
+            num_bits: self.num_bits,
+            z_header0: self.z_header0,
+            z_header1: self.z_header1,
+            z_adler32: self.z_adler32,
+            finish: self.finish,
+            block_type: self.block_type,
+            check_adler32: self.check_adler32,
+            dist: self.dist,
+            counter: self.counter,
+            num_extra: self.num_extra,
+            table_sizes: self.table_sizes,
+            bit_buf: self.bit_buf as u64,
+            raw_header: self.raw_header,
+        }
+    }
+
+    /// Overwrite the scalar registers; arrays are left as they are.
+    /// Returns false (and changes nothing) if `regs.state` is not a state id.
+    pub fn verif_set_regs(&mut self, regs: &Regs) -> bool {
+        let st = match state_from_id(regs.state) {
+            Some(s) => s,
+            None => return false,
+        };
+        self.state = st;
+        self.num_bits = regs.num_bits;
+        self.z_header0 = regs.z_header0;
+        self.z_header1 = regs.z_header1;
+        self.z_adler32 = regs.z_adler32;
+        self.finish = regs.finish;
+        self.block_type = regs.block_type;
+        self.check_adler32 = regs.check_adler32;
+        self.dist = regs.dist;
+        self.counter = regs.counter;
+        self.num_extra = regs.num_extra;
+        self.table_sizes = regs.table_sizes;
+        self.bit_buf = regs.bit_buf as BitBuffer;
+        self.raw_header = regs.raw_header;
+        true
+    }
+
+    pub fn verif_look_up(&self, table: usize, i: usize) -> i16 {
+        self.tables[table].look_up[i]
+    }
+    pub fn verif_tree(&self, table: usize, i: usize) -> i16 {
+        self.tables[table].tree[i]
+    }
+    pub fn verif_code_size_literal(&self, i: usize) -> u8 {
+        self.code_size_literal[i]
+    }
+    pub fn verif_code_size_dist(&self, i: usize) -> u8 {
+        self.code_size_dist[i]
+    }
+    pub fn verif_code_size_huffman(&self, i: usize) -> u8 {
+        self.code_size_huffman[i]
+    }
+    pub fn verif_len_codes(&self, i: usize) -> u8 {
+        self.len_codes[i]
+    }
+    pub fn verif_set_look_up(&mut self, table: usize, i: usize, v: i16) {
+        self.tables[table].look_up[i] = v;
+    }
+    pub fn verif_set_tree(&mut self, table: usize, i: usize, v: i16) {
+        self.tables[table].tree[i] = v;
+    }
+
+    /// A decoder whose every field (arrays included) is an unconstrained
+    /// symbolic value, in a valid automaton state.
+    #[cfg(kani)]
+    pub fn verif_havoc() -> DecompressorOxide {
+        let id: u8 = kani::any();
+        kani::assume(id < NUM_STATES);
+        let mut d = DecompressorOxide {
+            state: Start,
+            num_bits: kani::any(),
+            z_header0: kani::any(),
+            z_header1: kani::any(),
+            z_adler32: kani::any(),
+            finish: kani::any(),
+            block_type: kani::any(),
+            check_adler32: kani::any(),
+            dist: kani::any(),
+            counter: kani::any(),
+            num_extra: kani::any(),
+            table_sizes: kani::any(),
+            bit_buf: kani::any(),
+            tables: [
+                HuffmanTable {
+                    look_up: kani::any(),
+                    tree: kani::any(),
+                },
+                HuffmanTable {
+                    look_up: kani::any(),
+                    tree: kani::any(),
+                },
+                HuffmanTable {
+                    look_up: kani::any(),
+                    tree: kani::any(),
+                },
+            ],
+            code_size_literal: kani::any(),
+            code_size_dist: kani::any(),
+            code_size_huffman: kani::any(),
+            raw_header: kani::any(),
+            len_codes: kani::any(),
+        };
+        d.state = state_from_id(id).unwrap_or(Start);
+        d
+    }
+}
+
+/// `true` iff `validate_zlib_header` accepts (jumps to `ReadBlockHeader`).
+pub fn validate_zlib_header_ok(cmf: u32, flg: u32, flags: u32, mask: usize) -> bool {
+    match validate_zlib_header(cmf, flg, flags, mask) {
+        Action::Jump(ReadBlockHeader) => true,
+        Action::Jump(BadZlibHeader) => false,
+        // Not expected: reported as "rejects" twice so a harness can tell.
+        _ => panic!("validate_zlib_header returned an unexpected action"),
+    }
+}
+
+pub fn transfer_hook(
+    out_slice: &mut [u8],
+    source_pos: usize,
+    out_pos: usize,
+    match_len: usize,
+    out_buf_size_mask: usize,
+) {
+    transfer(out_slice, source_pos, out_pos, match_len, out_buf_size_mask)
+}
+
+pub fn apply_match_hook(
+    out_slice: &mut [u8],
+    out_pos: usize,
+    dist: usize,
+    match_len: usize,
+    out_buf_size_mask: usize,
+) {
+    apply_match(out_slice, out_pos, dist, match_len, out_buf_size_mask)
+}
+
+/// Runs the real `undo_bytes` on registers `(num_bits, bit_buf)`; returns
+/// `(bytes given back, new num_bits)`.
+pub fn undo_bytes_hook(num_bits: u32, max: u32) -> (u32, u32) {
+    let mut l = LocalVars {
+        bit_buf: 0,
+        num_bits,
+        dist: 0,
+        counter: 0,
+        num_extra: 0,
+    };
+    let r = undo_bytes(&mut l, max);
+    (r, l.num_bits)
+}
+
+pub fn length_base(i: usize) -> u16 {
+    LENGTH_BASE[i & BASE_EXTRA_MASK]
+}
+pub fn length_extra(i: usize) -> u8 {
+    LENGTH_EXTRA[i & BASE_EXTRA_MASK]
+}
+pub fn dist_base(i: usize) -> u16 {
+    DIST_BASE[i]
+}
+pub fn dist_extra(code: u8) -> u8 {
+    num_extra_bits_for_distance_code(code)
+}
+pub fn min_table_sizes() -> [u16; 3] {
+    MIN_TABLE_SIZES
+}
+
+/// `(max, bytes_left)` of the real `OutputBuffer` for the given geometry.
+pub fn output_buffer_geometry(slice: &mut [u8], pos: usize, budget: usize) -> (usize, usize) {
+    let ob = OutputBuffer::from_slice_pos_and_max(slice, pos, budget);
+    (ob.position() + ob.bytes_left(), ob.bytes_left())
+}
+
+/// Build the Huffman tables for the current `block_type` with the real
+/// `init_tree`. Returns 0 = `None`, 1 = jumped to `DecodeLitlen`,
+/// 2 = jumped to `ReadLitlenDistTablesCodeSize`, 3 = `BadTotalSymbols`, 4 = other.
+pub fn init_tree_hook(r: &mut DecompressorOxide) -> u8 {
+    let mut l = LocalVars {
+        bit_buf: r.bit_buf,
+        num_bits: r.num_bits,
+        dist: r.dist,
+        counter: r.counter,
+        num_extra: r.num_extra,
+    };
+    let res = init_tree(r, &mut l);
+    r.counter = l.counter;
+    match res {
+        None => 0,
+        Some(Action::Jump(DecodeLitlen)) => 1,
+        Some(Action::Jump(ReadLitlenDistTablesCodeSize)) => 2,
+        Some(Action::Jump(BadTotalSymbols)) => 3,
+        _ => 4,
+    }
+}
+
+/// Fill the fixed-block code lengths (real `start_static_table`).
+pub fn start_static_table_hook(r: &mut DecompressorOxide) {
+    start_static_table(r)
+}
+
+/// Real table lookup: `(symbol, code_len)` for the low bits of `bit_buf`.
+pub fn table_lookup_hook(r: &DecompressorOxide, table: usize, bit_buf: u64) -> (i32, u32) {
+    r.tables[table].lookup(bit_buf as BitBuffer)
+}
+
+// ---- cut-point bodies for `-Z stubbing` (paths through them are outside the claim) ----
+
+#[cfg(kani)]
+pub fn cut_init_tree(_r: &mut DecompressorOxide, _l: &mut LocalVars) -> Option<Action> {
+    kani::assume(false);
+    None
+}
+
+#[cfg(kani)]
+pub fn cut_decode_huffman_code<F>(
+    _r: &mut DecompressorOxide,
+    _l: &mut LocalVars,
+    _table: usize,
+    _flags: u32,
+    _in_iter: &mut InputWrapper,
+    _f: F,
+) -> Action
+where
+    F: FnOnce(&mut DecompressorOxide, &mut LocalVars, i32) -> Action,
+{
+    kani::assume(false);
+    Action::None
+}
+
+#[cfg(kani)]
+pub fn cut_decompress_fast(
+    _r: &mut DecompressorOxide,
+    _in_iter: &mut InputWrapper,
+    _out_buf: &mut OutputBuffer,
+    _flags: u32,
+    _local_vars: &mut LocalVars,
+    _out_buf_size_mask: usize,
+) -> (TINFLStatus, State) {
+    kani::assume(false);
+    (TINFLStatus::Failed, Start)
+}
+
+#[cfg(kani)]
+pub fn cut_transfer(
+    _out_slice: &mut [u8],
+    _source_pos: usize,
+    _out_pos: usize,
+    _match_len: usize,
+    _out_buf_size_mask: usize,
+) {
+    kani::assume(false);
+}
+
+#[cfg(kani)]
+pub fn cut_apply_match(
+    _out_slice: &mut [u8],
+    _out_pos: usize,
+    _dist: usize,
+    _match_len: usize,
+    _out_buf_size_mask: usize,
+) {
+    kani::assume(false);
+}
